@@ -101,6 +101,16 @@ class C01(Property):
         out_genes = []
         for n, (lo, hi, strand) in enumerate(genes):
             loc = {"c": False, "parts": [[lo, hi, strand]]}
+            if hi - lo >= 9 and rng.random() < 0.25:
+                # a gene with introns (2-3 exons, Biopython part order): distances are measured part by part,
+                # also across the origin of a circular record
+                k = rng.choice([2, 2, 3])
+                cuts = sorted(rng.sample(range(lo + 1, hi), 2 * k - 2))
+                bounds = [lo] + cuts + [hi]
+                parts = [[bounds[i], bounds[i + 1], strand] for i in range(0, len(bounds), 2)]
+                if strand == -1:
+                    parts.reverse()
+                loc = {"c": True, "parts": parts}
             out_genes.append({"n": n, "loc": loc})
         if circular and rng.random() < 0.4 and genes[0][0] >= 2:
             # an origin-spanning gene: [length-k, length) + [0, m)
